@@ -1,19 +1,18 @@
 SPECIFICATION Spec
 CONSTANTS
-    Mode = "edges"
-    Depth = 0
-    Kinds = {"unary", "prod", "exch"}
-    MaxN = 2
-    Limits = {1, 2}
+    Mode = "tree"
+    Depth = 9
+    Kinds = {"prod", "exch"}
+    MaxN = 5
+    Limits = {1, 2, 3}
     InitErrs = {FALSE, TRUE}
     Inputs = {"ok", "drift"}
     Decls = {TRUE, FALSE}
     FaultKinds = {"neterr", "reset", "timeout", "oversize_enc", "trunc_read", "enc_unknown", "enc_wrong", "oversize_dec", "status", "corrupt", "trunc", "schema_drift", "trunc_msg", "trailing", "rpcerr_hdr", "missing_cursor"}
-    MaxPerTurn = 1
-    MaxFaults = 99
-    MaxCur = 4
-    OpenFaults = TRUE
-    RequireEOS = FALSE
-    ExcFirst = FALSE
-VIEW View
+    MaxPerTurn = 2
+    MaxFaults = 2
+    MaxCur = 8
+    OpenFaults = FALSE
+    RequireEOS = TRUE
+    ExcFirst = TRUE
 CHECK_DEADLOCK FALSE
